@@ -68,4 +68,4 @@ def register(reg):
         },
         modifies=[],
         locals_types={"result": List(REC), "tied_conditions": List(Tuple(INT, INT))},
-        props=["C10"])
+        props=["C10", "C06"])
